@@ -562,6 +562,10 @@ def build_real_world(t, scn, root):
                     fname = 'x-%s.dat' % name.lower()
                     with open(os.path.join(d, '.index'), 'a') as f:
                         f.write('%s %s\n' % (name, fname))
+                if s.get('layout') == 'dirpermod' and fname == name and not s.get('zip'):
+                    # one directory per module, named like the module: <src>/<NAME>/<NAME>.mib
+                    os.makedirs(os.path.join(d, name), exist_ok=True)
+                    fname = os.path.join(name, name + '.mib')
                 with open(os.path.join(d, fname), 'w') as f:
                     f.write('\n'.join(parts))
                 os.utime(os.path.join(d, fname), (s.get('mtime', core.EPOCH0), s.get('mtime', core.EPOCH0)))
@@ -617,8 +621,50 @@ def step_cap(scn):
     return cap
 
 
+TEMPLATE_BODIES = {
+    'valid': '{# custom #}{{ mib.meta.module }} has {{ mib | length }} entries\n',
+    'syntax': '{% if mib %}never closed\n',
+    'runtime': '{{ mib.meta.module }}: {{ mib.nothing.here.at.all }}\n',
+    'include': '{{ mib.meta.module }}{% include "no-such-partial.j2" %}\n',
+    'filter': '{{ mib.meta.module | nosuchfilter }}\n',
+}
+
+
+def make_template(kind, codegen):
+    """-> (value of the dstTemplate option, scratch directory to drop afterwards or None).  Custom templates are files in a
+    scratch directory laid out so that the generators' loader finds them through an absolute path (the loader joins its search
+    directory - the directory of the template - with the name it is given, i.e. with that same path)."""
+    if kind == 'missing':
+        return 'no-such-template-%s.j2' % codegen, None
+    if kind == 'stock':
+        return 'pysnmp/mib-definitions.j2' if codegen == 'pysnmp' else 'jsondoc/base.j2', None
+    if kind == 'stock-other':
+        return 'pysnmp/managed-objects-instances.j2' if codegen == 'pysnmp' else 'pysnmp/base.j2', None
+    troot = core.new_root('tpl')
+    d = os.path.join(troot, 't')
+    nested = os.path.join(d, d.lstrip(os.sep))
+    with core.unhooked():
+        os.makedirs(nested)
+        with open(os.path.join(nested, 'custom.j2'), 'w') as f:
+            f.write(TEMPLATE_BODIES[kind])
+    return os.path.join(d, 'custom.j2'), troot
+
+
 def run_world(scn, root=None, writer=None, extra_setup=None):
     """Execute one compile() call; returns a Trace."""
+    troot = None
+    if scn.get('template'):
+        scn = dict(scn)
+        path, troot = make_template(scn['template'], scn.get('codegen', 'json'))
+        scn['_dstTemplate'] = path
+    try:
+        return _run_world(scn, root, writer, extra_setup)
+    finally:
+        if troot:
+            core.drop_root(troot)
+
+
+def _run_world(scn, root=None, writer=None, extra_setup=None):
     import pysmi.compiler as pc
     from pysmi.borrower.anyfile import AnyFileBorrower
     w = core.World(root=root, faults=scn.get('faults', ()), rate=scn.get('rate'), step_cap=step_cap(scn),
@@ -666,6 +712,8 @@ def run_world(scn, root=None, writer=None, extra_setup=None):
     if extra_setup is not None:
         extra_setup(comp, t)
     opts = {k: v for k, v in scn.get('options', {}).items() if k in OPTION_NAMES}
+    if scn.get('_dstTemplate'):
+        opts['dstTemplate'] = scn['_dstTemplate']
     first = t
     if t.http_roots:
         import pysmi.reader.httpclient as hc
@@ -924,6 +972,10 @@ def gen_world(rng, tier, focus='C07'):
     if rng.random() < 0.1:
         opts['writeMibs'] = False
     scn['options'] = opts
+    if rng.random() < 0.07:
+        # a user-supplied output template (the dstTemplate option): healthy, another stock template, missing, or broken
+        # in one of the ways a template can be broken - a configuration input that can be absent or damaged like any file
+        scn['template'] = rng.choice(['valid', 'stock', 'stock-other', 'missing', 'syntax', 'runtime', 'include', 'filter'])
     if rng.random() < 0.15:
         # second compile() call on the same compiler object after the sources changed
         gain, lose = {}, {}
@@ -977,6 +1029,8 @@ def gen_world(rng, tier, focus='C07'):
             s_['strict'] = rng.random() < 0.5
             if rng.random() < 0.2:
                 s_['index'] = True
+            elif rng.random() < 0.15:
+                s_['layout'] = 'dirpermod'
             elif rng.random() < 0.2:
                 s_['http'] = True            # served by a simulated web server through the real HttpReader
                 net = {}
@@ -1002,6 +1056,10 @@ def shrink_world(scn):
     if scn.get('rate'):
         s = copy.deepcopy(scn)
         s.pop('rate')
+        yield s
+    if scn.get('template'):
+        s = copy.deepcopy(scn)
+        s.pop('template')
         yield s
     if scn.get('second'):
         s = copy.deepcopy(scn)
